@@ -140,6 +140,7 @@ var (
 	curEither   func(int) (int, error)
 	curArrow    func(context.Context, int, chan<- int) error
 	sharedLift  = pipe.Lift(func(x int) (int, error) { return curEither(x) })
+	sharedPure  = pipe.Pure(func(x int) int { v, _ := curEither(x); return v })
 	sharedTry   = pipe.Try(func(x int) (int, error) { return curEither(x) })
 	sharedLiftF = pipe.LiftF(func(ctx context.Context, x int, out chan<- int) error { return curArrow(ctx, x, out) })
 	sharedTryF  = pipe.TryF(func(ctx context.Context, x int, out chan<- int) error { return curArrow(ctx, x, out) })
@@ -321,13 +322,22 @@ func build(ctx context.Context, s *Stage, ins []chan int, c *calls) []output {
 	// A lifted function is a value: the SAME pipe.Lift / pipe.Try (LiftF / TryF) value drives every stage of the whole
 	// process (it forwards to the function of the case at hand). Nothing of one stage's run may stick to it.
 	lift := func(f func(int) (int, error)) pipe.F[int, int] {
+		// a function that cannot fail is lifted with pipe.Pure in every other stage (a function of the stage's
+		// parameters, so that a replay lifts it the same way): for the stage it is a Lift that never reports
+		usePure := !s.Try && (s.Fail == nil || s.Fail.Kind == "" || s.Fail.Kind == "none") && s.Kind != "foreach" && (s.A+s.B+s.N+s.Seed+s.Freq)%2 == 0
 		if c.decoy {
+			if usePure {
+				return pipe.Pure(func(x int) int { v, _ := f(x); return v })
+			}
 			if s.Try {
 				return pipe.Try(f)
 			}
 			return pipe.Lift(f)
 		}
 		curEither = f
+		if usePure {
+			return sharedPure
+		}
 		if s.Try {
 			return sharedTry
 		}
